@@ -1,7 +1,7 @@
 (* C03 -- Verilog write -> read round trip.  Statements only; proofs in Proofs/VerilogProofs.v. *)
 From CG Require Import Verilog.ExprParse.
 From stdpp Require Import strings gmap sets.
-From CG Require Import Types Sem Cases Model.Lint Api Verilog.Ast Verilog.Read Verilog.Write Proofs.VerilogProofs Proofs.VerilogReadProofs Proofs.VerilogRtProofs.
+From CG Require Import Types Sem Cases Model.Lint Api Verilog.Ast Verilog.Read Verilog.Write Proofs.VerilogProofs Proofs.VerilogReadProofs Proofs.VerilogRtProofs Proofs.VerilogEqProofs.
 Open Scope string_scope.
 
 (* well-formed circuits of the property: lint-clean (blackbox pins may be open), names usable as identifier tokens,
@@ -85,6 +85,25 @@ Proof.
   exact (roundtrip_identical_prim C π m rsv _ (lint_clean_rt C rt_flags Hl Hg Hn Hcl Hc Hp) Hb Hw Hids).
 Qed.
 Print Assumptions C03_roundtrip_identical_bbfree.
+(* roundtrip_equiv for circuits without blackboxes, both styles, constants 0 and 1 allowed (no x constant: the reader shares one
+   unknown between all of them): reading the emitted text back succeeds and gives a circuit with the same name, inputs, outputs and
+   (empty) registry that is equivalent to the original on the outputs - every consistent valuation of one circuit has a consistent
+   valuation of the other with the same output values.  Proof (Proofs/VerilogEqProofs.v): the written module satisfies the guards of
+   C02's theorems; the read succeeds (C02_read_succeeds, lemma level); by C02_read_denotes the consistent valuations of the read-back
+   circuit are the models of the module, and the models of the module are the consistent valuations of the original (every emitted
+   statement denotes the function of its gate: C03_beh_expr_gate_val, prim_sem_gate_val, C03_const_expr_sem).
+   Missing for roundtrip_equiv_full: blackbox instances (pins), several x constants. *)
+Theorem C03_roundtrip_equiv_bbfree : ∀ C b π m rsv,
+  wf_rt C → c_bbs C = ∅ → no_pins (c_g C) → no_x (c_g C) → write C b π = Ok m → list_to_set (module_ids m) ⊆ rsv →
+  ∃ C', read rsv (bbdefs_of C) m = Ok C' ∧
+    c_name C' = c_name C ∧ inputs (c_g C') = inputs (c_g C) ∧ outputs (c_g C') = outputs (c_g C) ∧ c_bbs C' = c_bbs C ∧
+    equiv_on (outputs (c_g C)) (c_g C) (c_g C').
+Proof.
+  intros C b π m rsv (Hl & Hg & Hn & _ & Hcl) Hb Hp Hx Hw Hids. rewrite Hb.
+  exact (roundtrip_equiv_bbfree C b π m rsv _ (lint_clean_rte C rt_flags Hl Hg Hn Hcl Hx Hp) Hb Hw Hids).
+Qed.
+Print Assumptions C03_roundtrip_equiv_bbfree.
+
 (* non-vacuity: a circuit with a blackbox, a constant and an escaped name satisfies wf_rt, is written and read back *)
 Definition ex_C : Circuit := Cases.mk "top"
   [("a", Input, false, []); ("\b[0]", Input, true, []); ("k", C1, false, []);
@@ -118,4 +137,18 @@ Example C03_ex_identical_hyps :
   bool_decide (map_Forall (λ n i, n_ty i ∈ gate_types → n_fi i ≠ ∅) (c_g ex_C2)) = true ∧
   bool_decide (map_Forall (λ n (_ : ninfo), n ≠ "" ∧ starts_digit n = false) (c_g ex_C2)) = true ∧
   match write ex_C2 false ex_ord2 with Ok m => bool_decide (read (list_to_set (module_ids m)) [] m = Ok ex_C2) | _ => false end = true.
+Proof. vm_compute. done. Qed.
+(* non-vacuity of C03_roundtrip_equiv_bbfree: the hypotheses hold for a circuit with constants, in the assign style *)
+Definition ex_C3 : Circuit := Cases.mk "top3"
+  [("a", Input, true, []); ("b", Input, false, []); ("k1", C1, false, []); ("z", C0, true, []); ("g_0", Nand, false, ["a"; "b"; "k1"]);
+   ("n1", Not, true, ["g_0"]); ("x1", Xnor, true, ["a"; "n1"; "g_0"])] [].
+Definition ex_ord3 : worder :=
+  {| o_ins := ["b"; "a"]; o_outs := ["x1"; "a"; "z"; "n1"]; o_bbs := []; o_nodes := ["x1"; "z"; "n1"; "k1"; "g_0"];
+     o_fi := [("x1", ["n1"; "a"; "g_0"]); ("z", []); ("n1", ["g_0"]); ("k1", []); ("g_0", ["b"; "k1"; "a"])] |}.
+Example C03_ex_equiv_hyps :
+  lint ex_C3 rt_flags = Ok () ∧ closedb (c_g ex_C3) = true ∧ c_bbs ex_C3 = ∅ ∧
+  bool_decide (no_pins (c_g ex_C3)) = true ∧ bool_decide (no_x (c_g ex_C3)) = true ∧
+  bool_decide (map_Forall (λ n i, n_ty i ∈ gate_types → n_fi i ≠ ∅) (c_g ex_C3)) = true ∧
+  bool_decide (map_Forall (λ n (_ : ninfo), n ≠ "" ∧ starts_digit n = false) (c_g ex_C3)) = true ∧
+  match write ex_C3 true ex_ord3 with Ok m => match read (list_to_set (module_ids m)) [] m with Ok _ => true | _ => false end | _ => false end = true.
 Proof. vm_compute. done. Qed.
